@@ -28,6 +28,7 @@ type Val struct {
 	negBorrow  *Val // ... and this is the borrow of that subtraction: [u != 0]
 	assumed    bool // exactness rests on an unproven side-condition (recorded as issue)
 	shadow     int  // shadow atom id used by the relational bound prover (0 = none)
+	ikind      int8 // index arithmetic: 1 = untyped integer literal, 2 = Go `int` (len, a := of a literal, int(...)); 0 = a machine word
 }
 
 type origin struct {
@@ -681,7 +682,51 @@ func (in *interp) opShl(x, k *Val) (*Val, error) {
 	return v, nil
 }
 
+// ikindOf: the Go type class of x op y for + - * (see Val.ikind).
+func ikindOf(x, y *Val) int8 {
+	switch {
+	case x.ikind == 2 && y.ikind >= 1, y.ikind == 2 && x.ikind >= 1:
+		return 2
+	case x.ikind == 1 && y.ikind == 1:
+		return 1
+	}
+	return 0
+}
+
+func withKind(v *Val, k int8) *Val {
+	if v.ikind == k {
+		return v
+	}
+	c := *v
+	c.ikind = k
+	return &c
+}
+
 func (in *interp) binary(op token.Token, x, y *Val) (*Val, error) {
+	if op == token.ADD || op == token.SUB || op == token.MUL {
+		if k := ikindOf(x, y); k != 0 {
+			// constant arithmetic on loop counters / lengths (Go `int`, which is signed: a count-down loop ends at -1)
+			cx, ok1 := x.constant()
+			cy, ok2 := y.constant()
+			if ok1 && ok2 {
+				r := new(big.Int)
+				switch op {
+				case token.ADD:
+					r.Add(cx, cy)
+				case token.SUB:
+					r.Sub(cx, cy)
+				default:
+					r.Mul(cx, cy)
+				}
+				if r.Sign() >= 0 || k == 2 {
+					if r.IsInt64() {
+						use(x, y)
+						return withKind(in.constVal(r), k), nil
+					}
+				}
+			}
+		}
+	}
 	switch op {
 	case token.ADD:
 		return in.opPlus(x, y), nil
